@@ -318,6 +318,14 @@ class ModelMixin(ModelMixin2, ModelMixin3):
                 self.stats['forks'] += 1
                 self.unify(st, l.sym, r.sym)
                 s2.facts.add(('ne', min(l.sym, r.sym), max(l.sym, r.sym)))
+                # `child is X` answered no for the current child of a traversal of P, X being an attached child of P: if every
+                # iteration of that traversal says so, the traversal cannot end (see loop_exit)
+                for it, x in ((l, r), (r, l)):
+                    ie_, xe_ = s2.get(it.sym), s2.get(x.sym)
+                    if ie_.origin and ie_.origin[0] == 'iterchild' and not (xe_.origin and xe_.origin[0] == 'iterchild') and xe_.attached is True and xe_.parent == ie_.parent:
+                        m = dict(s2.mon.get('srchmiss') or {})
+                        m[(len(s2.frames), s2.frame.loops)] = x.sym
+                        s2.mon['srchmiss'] = m
                 return [(True, st), (False, s2)]
             return [(False, st)]
         if isinstance(l, ExtV) and isinstance(r, ExtV):
@@ -753,7 +761,9 @@ class ModelMixin(ModelMixin2, ModelMixin3):
                 st.put(sym, replace(e, attached='maybe'))
         # index typestate
         for sym, e in self.parent_indices(p.sym, st):
-            st.put(sym, self.idx_after_remove(e, n.sym, st))
+            e2 = self.idx_after_remove(e, n.sym, st)
+            st.put(sym, e2)
+            self.retally(st, sym, e, e2)
         for k in [k for k in st.facts if k[0] in ('before', 'notbefore') and n.sym in k[1:]]:
             st.facts.discard(k)
         st.put(n.sym, replace(st.get(n.sym), attached=False, parent=p.sym))
@@ -792,12 +802,31 @@ class ModelMixin(ModelMixin2, ModelMixin3):
         if e.succ is not None:
             e = replace(e, succ=None)
         if e.kind == 'end':
-            return replace(e, slack=max(e.slack - 1, -3))
+            return replace(e, slack=max(e.slack - 1, -3), ins=min(e.ins + 1, 3))
         if e.kind in ('fresh', 'slot'):
             if at is not None and at.kind == 'end' and at.delta == 0 and at.slack >= 0:
                 return e        # appended behind every existing child
+            if e.kind == 'fresh' and at is not None and at.kind == 'fresh' and at.delta == 0 and at.anchor is not None and at.anchor == e.anchor:
+                # inserted exactly in front of this index's anchor: the value now lies one more place before the anchor
+                return replace(e, delta=max(e.delta - 1, -3), ins=min(e.ins + 1, 3))
             return replace(e, kind='stale', why='a node was inserted into the same parent after this index was taken')
         return e
+
+    def retally(self, st: State, sym, old: IdxE, new: IdxE, inserted_at=None):
+        """keep `tally == inserts at <sym>'s anchor - lag` true across a change of index *sym* (or give the tally up)"""
+        from .domains import TallyV
+        shifted = False
+        if inserted_at is not None and new.kind == old.kind:
+            if old.kind == 'end':
+                shifted = True
+            elif old.kind == 'fresh':
+                shifted = inserted_at.kind == 'fresh' and inserted_at.delta == 0 and inserted_at.anchor is not None and inserted_at.anchor == old.anchor
+        if not shifted and new == old:
+            return
+        for f in st.frames:
+            for name, v in list(f.env.items()):
+                if isinstance(v, TallyV) and v.base == sym:
+                    f.env[name] = TallyV(v.origin, v.base, v.lag + 1) if shifted and abs(v.lag + 1) <= 3 else NumV(('counter', name))
 
     def dirty_snapshots(self, st: State, p_sym):
         for sym, e in list(st.heap.items()):
@@ -841,7 +870,9 @@ class ModelMixin(ModelMixin2, ModelMixin3):
         for sym, e in self.parent_indices(p.sym, st):
             if isinstance(idx, Ref) and sym == idx.sym:
                 continue
-            st.put(sym, self.idx_after_insert(e, ie, st))
+            e2 = self.idx_after_insert(e, ie, st)
+            st.put(sym, e2)
+            self.retally(st, sym, e, e2, inserted_at=ie)
         if isinstance(idx, Ref) and idx.kind == 'idx' and ie is not None:
             if ie.kind == 'end' and ie.slack > 0:
                 st.put(idx.sym, replace(ie, slack=ie.slack - 1))
